@@ -10,7 +10,7 @@ from checks import c10
 D = SPEC / "LogBridge"
 RTARGETS = ["a", "a::b", "ab", "b", "skip", "skip::x", "skipper"]
 PREFIXES = ["", "a", "a::b", "skip"]
-IGNORES = [[], ["skip"], ["skip", "a::b"], ["a"]]
+IGNORES = [[], ["skip"], ["skip", "a::b"], ["a"], ["skip::x", "skip"], ["a::b", "a"]]   # order of registration included
 MSGS = ["plain", "", "with \"quotes\" and \\ back", "é 日本 \U0001F600", "multi\nline", "x" * 200, "{} {:?} braces", "tab\there"]
 
 
@@ -40,6 +40,8 @@ def gen_t2l(rng, sites, ids):
             elif not glob:
                 glob = True
                 steps.append({"op": "global"})
+        if rng.random() < 0.15:
+            steps.append({"op": "construct"})      # a Dispatch that is built but never installed
         steps.append(site_step(rng, sites, rng.choice(ids)))
     while scoped > 0:
         scoped -= 1
@@ -57,9 +59,12 @@ def gen_l2t(rng):
         col = {"cap": rng.randint(0, 5), "prefix": rng.choice(PREFIXES), "hint": rng.random() < 0.6, "inen": rng.random() < 0.5, "installed": rng.random() < 0.9}
         recs = []
         for _ in range(20):
+            via = "logger"
+            if col["installed"] and (col["inen"] or not col["hint"]) and rng.random() < 0.2:
+                via = "format_trace"
             recs.append({"level": rng.randint(1, 5), "target": rng.choice(RTARGETS), "msg": hx(rng.choice(MSGS)),
                          "file": some(rng, ["src/lib.rs", "a b/c.rs", ""]), "module": some(rng, ["m", "a::b::c", ""]),
-                         "line": rng.choice([-1, 0, 1, 4242, 2 ** 31 - 1]), "via_macro": rng.random() < 0.2})
+                         "line": rng.choice([-1, 0, 1, 4242, 2 ** 31 - 1]), "via_macro": via == "logger" and rng.random() < 0.2, "via": via})
         rounds.append({"collector": col, "records": recs})
     return {"mode": "l2t", "ignore": rng.choice(IGNORES), "rounds": rounds}
 
